@@ -687,6 +687,7 @@ pub fn size_ladders(tier: Tier) -> Vec<(String, String)> {
     v.push(("map-unpack-self-2".to_string(), "f = ||\n  m = {m: 5, n: 6}\n  {n, m} = m\n  (m, n)\nprint f()\n".to_string()));
     v.push(("return-in-string-3".to_string(), "f = |a| '{a} {if a > 0 then return 7 else 0}'\nprint 'x{f 1}y'\nprint 'x{f 0}y'\n".to_string()));
     v.push(("continue-in-string-4".to_string(), "f = |n|\n  out = []\n  for i in 0..n\n    out.push 'b{if i == 0 then continue else i}c'\n  out\nprint 'x{f 2}y'\n".to_string()));
+    v.push(("fill-without-width-5".to_string(), "x = 42\nprint '{x:_<}'\nprint '{x:*^}|{x:0>}'\nprint 'done'\n".to_string()));
     // nested temporaries: deep nesting of calls
     for n in [60usize, 120, 200, 250, 254, 255, 256, 300] {
         let mut s = String::from("id = |x| x\nprint ");
@@ -750,6 +751,7 @@ fn expected_ladder_output(name: &str) -> Option<String> {
         "import-items" => "caught\n".to_string(),
         "map-unpack-self" => if k == 1 { "(1, 2)\n".to_string() } else { "(5, 6)\n".to_string() },
         "return-in-string" => "x7y\nx0 0y\n".to_string(),
+        "fill-without-width" => "42\n42|42\ndone\n".to_string(),
         "continue-in-string" => "x['b1c']y\n".to_string(),
         "list-literal" | "tuple-literal" | "map-literal" | "list-literal-sum" | "tuple-literal-under-pressure" => format!("{k}\n"),
         "constants-before-uses" => "(1, 2, 'v', 'ck', 'meta', 'x3y', 7)\n".to_string(),
